@@ -151,7 +151,9 @@ func subproto(c *vh.Ctx, m *vh.Model) {
 		}
 	}
 	// hash-mode queries with adversarial Skip / Reverse (termination, no panic)
-	for _, skip := range []uint64{0, 1, 1 << 31, 1<<63 - 1, 1 << 63, 1<<64 - 2, 1<<64 - 1} {
+	// (large Skip values are swept in the child process, under a memory ceiling: a reply buffer sized
+	// from Skip would take this process down instead of being reported)
+	for _, skip := range []uint64{0, 1, 5} {
 		for _, rev := range []bool{false, true} {
 			for _, o := range []interface{}{known[nBlocks], known[nBlocks/2], known[0], uint64(nBlocks / 2), uint64(0)} {
 				payload, _ := rlp.EncodeToBytes([]interface{}{o, uint64(1 << 40), skip, rev})
